@@ -325,7 +325,11 @@ def stepOp (d : DS) (op implObs : String) : DS × String × List String × List 
         | [k, how] =>
           let id := refId d (parseNat! k)
           match dbGet bucket id with
-          | some r => some (id, if r.hasInfo then how else "infohash")
+          | some r =>
+            -- `straybf`: a bitfield in a record without metadata is ignored (the record loads); with metadata it is
+            -- the `bitfield` damage
+            if how = "straybf" then (if r.hasInfo then some (id, "bitfield") else none)
+            else some (id, if r.hasInfo then how else "infohash")
           | none => none
         | _ => none
       let mp := kvNat toks "maxpieces"
@@ -378,7 +382,11 @@ def suite : Suite where
       (fun (acc : DS × List (String × List String) × List String) (o : String × String) =>
         let (d, rs, tags) := acc
         let (d', obs, viol, t) := stepOp d o.1 o.2
-        (d', (obs, viol) :: rs, tags ++ t)) ({}, [], [])
+        -- no stored record, description or call sequence crashes the client (the harness turns a Go panic of the
+        -- calling goroutine into this observation; it reports it for every op of the case: judged once)
+        let crash := if o.2.startsWith "panic:" && rs.isEmpty then
+            [s!"C06 client-crashed obs={(o.2.take 120).toString.replace " " "_"}", s!"C14 client-crashed obs={(o.2.take 120).toString.replace " " "_"}"] else []
+        (d', (obs, viol ++ crash) :: rs, tags ++ t)) ({}, [], [])
     let tags := tags.eraseDups
     -- non-trivial: an accepted add and a restart, with a rejected add or a record of a live torrent that fails to load
     let nt := if tags.contains "accepted" ∧ tags.contains "restart" ∧ (tags.contains "rejected" ∨ tags.contains "failedload") then ["nontrivial"] else []
